@@ -159,8 +159,9 @@ class Straight:
     reached; so are `return` / `continue` and the end of the body.  Anything else - loops other than the ones a kernel
     asks to be recorded, writes to another element of a tracked container - raises KernelError."""
 
-    def __init__(self, what, env, helpers=None, record_loops=False):
+    def __init__(self, what, env, helpers=None, record_loops=False, calls=()):
         self.what = what
+        self.calls = tuple(calls)            # the calls the body may make as statements (anything else: KernelError)
         self.env = dict(env)
         self.tracked = set(k for k in env)
         self.lets = []
@@ -276,6 +277,8 @@ class Straight:
                 if any(root_text(ast.parse(k, mode="eval").body) == root_text(v.func.value) for k in self.tracked
                        if isinstance(v.func, ast.Attribute) and ("[" in k)):
                     self.err("call of %s on a tracked container" % f, s)
+                if f not in self.calls:
+                    self.err("call of %s as a statement (the kernel expects only %s)" % (f, ", ".join(self.calls) or "none"), s)
                 self.event("call", pc, v, f)
                 return
             self.err("statement %s" % ast.unparse(s), s)
@@ -353,7 +356,8 @@ def kernel_rate_limit(core):
     """rate_limit.update: the slot reservation `self.next = max(now, self.next) + self.interval`, the condition and the
     length of the sleep, and the order sleep -> emission"""
     fn = find_func(find_class(core, "rate_limit"), "update")
-    sx = Straight("rate_limit.update", {"time()": "now", "self.next": "next", "self.interval": "interval"})
+    sx = Straight("rate_limit.update", {"time()": "now", "self.next": "next", "self.interval": "interval"},
+                  calls=("self._retain_refs", "gen.sleep", "self._emit", "self._release_refs"))
     sx.run(body_src(fn))
     sleep = sx.the("call", "gen.sleep", "gen.sleep(...)")
     emit = sx.the("call", "self._emit", "self._emit(...)")
@@ -377,7 +381,7 @@ def kernel_refcounter(core):
     if [e for e in sr.events if e.kind == "call"]:
         raise KernelError("RefCounter.retain calls something")
     # the callback is present in our model (`self.cb` is truthy)
-    sl = Straight("RefCounter.release", {"self.count": "count", "n": "n", "self.cb": "true"})
+    sl = Straight("RefCounter.release", {"self.count": "count", "n": "n", "self.cb": "true"}, calls=("self.loop.add_callback",))
     sl.run(body_src(find_func(cls, "release")))
     cb = sl.the("call", "self.loop.add_callback", "self.loop.add_callback(...)")
     if [ast.unparse(a) for a in cb.node.args] != ["self.cb"] or cb.node.keywords:
@@ -406,7 +410,7 @@ def kernel_slice(core):
     out = {}
 
     def run_update(extra):
-        sx = Straight("slice.update", dict(base, **extra), helpers={"_check_end": chk}, record_loops=True)
+        sx = Straight("slice.update", dict(base, **extra), helpers={"_check_end": chk}, record_loops=True, calls=("self._emit",))
         sx.run(body_src(upd))
         emit = sx.the("call", "self._emit", "self._emit(...)")
         check = sx.the("helper", "self._check_end", "call of self._check_end()")
@@ -485,7 +489,7 @@ def kernel_kafka(sources):
            # reset_latest: the key is present and holds 'latest'
            "'auto.offset.reset' in self.consumer_params.keys()": "true", "'auto.offset.reset' in self.consumer_params": "true",
            reset + " == 'latest'": "reset_latest", reset + " != 'latest'": "(negb reset_latest)"}
-    sx = Straight("poll_kafka", env)
+    sx = Straight("poll_kafka", env, calls=("out.append",))
     sx.run(body)
     app = sx.the("call", "out.append", "out.append(..)")
     a = app.node.args
@@ -501,7 +505,7 @@ def kernel_kafka(sources):
               and ast.unparse(s.value) == "%s[1:]" % commit.args.args[0].arg]
     if len(unpack) != 1 or len(unpack[0].targets[0].elts) != 5 or not isinstance(unpack[0].targets[0].elts[4], ast.Name):
         raise KernelError("poll_kafka.commit: `topic, part_no, _, _, offset = _part[1:]`")
-    sc = Straight("poll_kafka.commit", {unpack[0].targets[0].elts[4].id: "hi"})
+    sc = Straight("poll_kafka.commit", {unpack[0].targets[0].elts[4].id: "hi"}, calls=("self.consumer.commit",))
     sc.run([s for s in body_src(commit) if s is not unpack[0]])
     tp = [e for e in sc.events if e.kind == "call" and e.func.endswith("TopicPartition")]
     if len(tp) != 1 or len(tp[0].node.args) != 3:
